@@ -253,7 +253,7 @@ func (st *c05State) streamJudge(s *c05Scenario, phase string, k int, errno, stdo
 // Logger (--only selecting the first fix but not the last one leaves Logger.suppressDiag set
 // when the save starts; -q; -g; -s; -e), stdout and stderr judged separately.
 func (st *c05State) c05Streams(variant int, thorough bool) {
-	ctx, res := st.ctx, st.res
+	ctx := st.ctx
 	optsets := [][]string{{}, {"-q"}, {"-g"}, {"--only", "with tabs"}, {"--only", "with tabs", "-q"}, {"--only", "aligned"}, {"-s"}, {"-e"}, {"--only", "with tabs", "-g"}}
 	faults := []string{"tmp-taken", "fsize"}
 	type job struct {
@@ -270,8 +270,18 @@ func (st *c05State) c05Streams(variant int, thorough bool) {
 		}
 	}
 	parallelFor(len(jobs), func(i int) {
-		j := jobs[i]
-		name := fmt.Sprintf("streams-%s-%d-%d", j.fault, variant, i)
+		st.streamsJob(fmt.Sprintf("streams-%s-%d-%d", jobs[i].fault, variant, i), jobs[i].opts, jobs[i].fault)
+	})
+}
+
+// one run of the stream scenarios (also the replay of its violations)
+func (st *c05State) streamsJob(name string, opts []string, fault string) {
+	ctx, res := st.ctx, st.res
+	j := struct {
+		opts  []string
+		fault string
+	}{opts, fault}
+	{
 		root := filepath.Join(ctx.Work, "c05", name, "pkgsrc")
 		os.RemoveAll(filepath.Dir(root))
 		defer os.RemoveAll(filepath.Dir(root))
@@ -329,7 +339,7 @@ func (st *c05State) c05Streams(variant int, thorough bool) {
 		st.evals(1, 0)
 		res.Count("streams_runs_"+j.fault, 1)
 		argv := strings.Join(args, " ")
-		rep := map[string]any{"scenario": "streams", "fault": j.fault, "argv": argv, "makefile": hx(mks), "stdout": c05Short(stdout), "stderr": c05Short(stderr)}
+		rep := map[string]any{"scenario": "streams", "fault": j.fault, "argv": argv, "opts": j.opts, "makefile": hx(mks), "stdout": c05Short(stdout), "stderr": c05Short(stderr)}
 		where := fmt.Sprintf("`pkglint %s` on a Makefile with two alignment fixes, %s", argv,
 			map[string]string{"tmp-taken": "cat/pkg/Makefile.pkglint.tmp exists (the exclusive open fails with EEXIST)", "fsize": "RLIMIT_FSIZE=64 (the write fails with EFBIG)"}[j.fault])
 		size := 1 + len(j.opts)
@@ -392,7 +402,7 @@ func (st *c05State) c05Streams(variant int, thorough bool) {
 		if len(j.opts) > 0 && j.opts[0] == "--only" {
 			res.Count("streams_ok_only", 1)
 		}
-	})
+	}
 }
 
 // ---------- extraction cross-check of the link-aware model ----------
